@@ -348,8 +348,10 @@ def check_dirs(ctx):
     opt = None
     for b in bodies:
         for n in walk_no_nested(b.node):
-            if isinstance(n, ast.For) and U(n.iter).endswith(
-                    '.oslo_policy.policy_dirs'):
+            if isinstance(n, ast.For) and (U(n.iter).endswith(
+                    '.oslo_policy.policy_dirs') or (
+                        isinstance(n.iter, ast.Attribute)
+                        and n.iter.attr == 'policy_dirs')):
                 opt = (b, n)
     walker_calls = [(b, n) for b in bodies for n in walk_no_nested(b.node)
                     if isinstance(n, ast.Call)
@@ -462,15 +464,27 @@ def check_dirs(ctx):
                if okm else 'policy-directory files are loaded with '
                'overwrite on: each file would wipe what was loaded before')
     # main file uses self.overwrite
-    mains = [n for b in bodies for n in walk_no_nested(b.node)
-             if isinstance(n, ast.Call)
-             and prog.callee_of(b, n) is r.loader]
+    # (read off the paths of load_rules: local aliases and helpers resolved)
+    mains = []
+    seen_main = set()
+    for p in t.paths:
+        for e in p.events:
+            if classify_event(t, e) == 'MAIN':
+                x = t.expand(e.node)
+                k = (e.line, U(x))
+                if k not in seen_main:
+                    seen_main.add(k)
+                    if not hasattr(x, 'lineno'):
+                        x.lineno = e.line
+                        x.col_offset = 0
+                    mains.append(x)
     for mc in mains:
         ov = kwarg(mc, 'overwrite', 2)
         ok = ov is not None and U(ov) == 'self.overwrite'
         pth = kwarg(mc, 'path', 0)
         okp = pth is not None and U(pth) == 'self.policy_path'
-        ctx.ob('C09.MODES', ok and okp, W(mc), lr.qual, U(mc)[:100],
+        ctx.ob('C09.MODES', ok and okp, '%s:%d' % (
+            W(lr.node).split(':')[0], mc.lineno), lr.qual, U(mc)[:100],
                'the main file is loaded from policy_path in the enforcer\'s '
                'overwrite mode' if ok and okp else
                'the main policy file is not loaded as (self.policy_path, '
